@@ -4,7 +4,7 @@ from . import ops_ecss
 OPS = {}
 OPS.update(ops_ecss.OPS)
 import os as _os
-for _name in ("ops_time", "ops_cfdp", "ops_uslp", "ops_util", "ops_srv1", "ops_msg"):
+for _name in ("ops_time", "ops_cfdp", "ops_uslp", "ops_util", "ops_srv1", "ops_msg", "ops_fault"):
     if _os.path.exists(_os.path.join(_os.path.dirname(__file__), _name + ".py")):
         _m = __import__(f"vp.{_name}", fromlist=["OPS"])
         OPS.update(_m.OPS)
